@@ -41,6 +41,7 @@ Record probe := mk_probe {
   p_ranges : list (list (bytes * bytes) * bool) }.
 
 Record batch_obs := mk_batch {
+  b_dels : option (list bytes * list bytes);      (* a DelKVPair batch: keys, returned values (nil = empty) *)
   b_writes : list (bytes * bytes);
   b_updated : option (list bool);
   b_class : N;
@@ -168,19 +169,54 @@ Record st := mk_st {
   s_tree : otree; s_roots : list root; s_trees : list otree; s_map : smap;
   s_db : option (db * root); s_m : bool; s_s : bool }.
 
+(* the spec's DelKVPair: returned values and the new map *)
+Fixpoint spec_dels (m : smap) (ks : list bytes) : smap * list bytes :=
+  match ks with
+  | [] => (m, [])
+  | k :: tl => let '(m', vs) := spec_dels (sdel k m) tl in (m', ov (sget m k) :: vs)
+  end.
+
+Definition batch_model (o : otree) (b : batch_obs) : option (otree * list bool * bool) :=
+  match b_dels b with
+  | None => match t_set_flags o (b_writes b) with
+            | None => None
+            | Some (o', us) => Some (o', us, true)
+            end
+  | Some (ks, vals) =>
+      match t_remove_all o ks with
+      | None => None
+      | Some (o', vs) => Some (o', [], list_eqb beq vals (map ov vs))
+      end
+  end.
+
+Definition batch_spec (m : smap) (b : batch_obs) : smap * bool :=
+  match b_dels b with
+  | None => (apply_writes m (b_writes b), true)
+  | Some (ks, vals) => let '(m', vs) := spec_dels m ks in (m', list_eqb beq vals vs)
+  end.
+
+Definition batch_store (d : db) (r : root) (b : batch_obs) : option (db * root) :=
+  match b_dels b with
+  | None => set_kv_pair d r (b_writes b)
+  | Some (ks, _) => match del_kv_pair d r ks with
+                    | Some (dr, _) => Some dr
+                    | None => None
+                    end
+  end.
+
 Definition step (deep : bool) (keys : list bytes) (qs : list query) (gbis : list Z)
   (s : st) (b : batch_obs) : st :=
-  match t_set_flags (s_tree s) (b_writes b) with
+  match batch_model (s_tree s) b with
   | None => mk_st (s_tree s) (s_roots s) (s_trees s) (s_map s) (s_db s) false (s_s s)
-  | Some (o', us) =>
+  | Some (o', us, dv_ok) =>
       let r' := tree_root o' in
-      let m' := apply_writes (s_map s) (b_writes b) in
+      let '(m', dv_spec) := batch_spec (s_map s) b in
       let cls := root_class r' (s_roots s) in
       let dbst :=
         if deep then
           match s_db s with
           | None => None
-          | Some (d, r) => set_kv_pair d r (b_writes b)
+          | Some (d, r) => batch_store d r b
           end
         else s_db s in
       let deep_ok :=
@@ -192,16 +228,16 @@ Definition step (deep : bool) (keys : list bytes) (qs : list query) (gbis : list
               match b_dbcount b with None => true | Some n => (n =? N.of_nat (length d'))%N end
           end
         else true in
-      let ma := oupd_eqb (b_updated b) us && (b_class b =? cls)%N && deep_ok
+      let ma := oupd_eqb (b_updated b) us && (b_class b =? cls)%N && deep_ok && dv_ok
                 && probe_agrees o' keys qs gbis (b_probe b) && b_old_same b in
-      let sp := probe_spec m' keys qs (b_probe b) && b_old_same b in
+      let sp := probe_spec m' keys qs (b_probe b) && b_old_same b && dv_spec in
       mk_st o' (s_roots s ++ [r']) (s_trees s ++ [o']) m' dbst (s_m s && ma) (s_s s && sp)
   end.
 
 Fixpoint states (m : smap) (bs : list batch_obs) : list smap :=
   match bs with
   | [] => []
-  | b :: tl => let m' := apply_writes m (b_writes b) in m' :: states m' tl
+  | b :: tl => let m' := fst (batch_spec m b) in m' :: states m' tl
   end.
 
 Definition tree_eqb_via_shape (a b : otree) : bool :=
@@ -256,8 +292,11 @@ Inductive irange := RG (kvs : list ikv) (stopped : bool).
 Inductive iquery := QR (lim : option N) (start endk : option N) (asc incl : bool).
 Inductive iprobe := PR (err : bool) (size height : Z) (shape : list ishape) (reads : list iread)
                        (gbi : list (option ikv)) (ranges : list irange).
-Inductive ibatch := BT (writes : list ikv) (updated : option (list bool)) (cls : N)
-                       (dbcount : option N) (p : iprobe) (old_same : bool).
+Inductive ibatch :=
+| BT (writes : list ikv) (updated : option (list bool)) (cls : N)
+     (dbcount : option N) (p : iprobe) (old_same : bool)
+| BD (dels : list ikv) (cls : N) (dbcount : option N) (p : iprobe) (old_same : bool).
+     (* DelKVPair batch: (key, returned value) pairs *)
 Inductive ireopen := RO (batch_no : N) (p : iprobe).
 Inductive case :=
 | CHist (deep : bool) (tab : list bytes) (keys : list N) (queries : list iquery) (gbis : list Z)
@@ -292,7 +331,10 @@ Section Resolve.
     end.
   Definition rs_batch (x : ibatch) : batch_obs :=
     match x with
-    | BT ws up c n p same => mk_batch (map rs_kv ws) up c n (rs_probe p) same
+    | BT ws up c n p same => mk_batch None (map rs_kv ws) up c n (rs_probe p) same
+    | BD ds c n p same =>
+        mk_batch (Some (map (fun x => fst (rs_kv x)) ds, map (fun x => snd (rs_kv x)) ds)) [] None c n
+                 (rs_probe p) same
     end.
   Definition rs_reopen (x : ireopen) : N * probe := match x with RO n p => (n, rs_probe p) end.
 End Resolve.
